@@ -139,6 +139,25 @@ pub fn child(tier: Tier) -> ! {
         }
         compiled.add(&format!("{text}=>{a}"));
     });
+    // (1b) the tag-structures space (two edges + up to two tag deviations: several distinct outer
+    //      tags imported into one fold, sibling folds importing the same tag, count tags, ...)
+    {
+        let cfg_t = corpus::structures_cfg(&uni, 2, vec!["Pt", "Fct"], 2);
+        let layers = crate::qgen::enumerate(&uni.world.schema, &cfg_t.seeds, 2, &cfg_t.gen);
+        layers.par_iter().flatten().for_each(|q| {
+            let text = q.text();
+            let one = || match engine::compile(&uni.schema, &text) {
+                Compiled::Ok(iq) => format!("ok:{:?}", iq.ir_query),
+                Compiled::Err(e) => format!("err:{e}"),
+                Compiled::Panic(p) => format!("panic:{}", p.key()),
+            };
+            let (a, b) = (one(), one());
+            if a != b {
+                repeat_mismatch.lock().unwrap().push(text.clone());
+            }
+            compiled.add(&format!("{text}=>{a}"));
+        });
+    }
     // (2) execute with a recording adapter: rows (in order) and the adapter call trace
     let mut cfg_x = CorpusCfg::new(tier.pick(1, 2));
     cfg_x.gen.naming_devs = false;
@@ -254,7 +273,18 @@ pub fn run(ctx: &Ctx) -> ! {
     // seed batches until the S-det permutations are all seen (or the cap is reached)
     let mut next = 0u64;
     let budget = ctx.tier.pick(35.0, 600.0);
-    let sdet_perms = |reports: &BTreeMap<u64, serde_json::Value>| -> BTreeSet<String> { reports.values().map(|r| r["orders"]["S-det"]["vertex_types"].to_string()).collect() };
+    // quick: every relative order of the three non-root types of S-det (6); thorough: every order of all four keys (24)
+    let quick = ctx.tier == Tier::Quick;
+    let sdet_perms = move |reports: &BTreeMap<u64, serde_json::Value>| -> BTreeSet<String> {
+        reports
+            .values()
+            .map(|r| {
+                let order: Vec<String> = r["orders"]["S-det"]["vertex_types"].as_array().map(|a| a.iter().filter_map(|x| x.as_str()).filter(|x| !quick || *x != "Q").map(|x| x.to_string()).collect()).unwrap_or_default();
+                order.join(",")
+            })
+            .collect()
+    };
+    let wanted = if quick { 6 } else { 24 };
     loop {
         let batch: Vec<u64> = (next..(next + 16).min(max_seeds)).collect();
         if batch.is_empty() {
@@ -267,7 +297,7 @@ pub fn run(ctx: &Ctx) -> ! {
             }
             Err(e) => crate::common::machinery(&format!("C14 child for seed {s} failed: {e}")),
         });
-        let done = sdet_perms(&reports.lock().unwrap()).len() == 24;
+        let done = sdet_perms(&reports.lock().unwrap()).len() == wanted;
         if (done && next >= 32) || ctx.elapsed() > budget {
             break;
         }
@@ -329,14 +359,14 @@ pub fn run(ctx: &Ctx) -> ! {
     c.insert("traces_validated_against_impl".into(), json!(matched));
     c.insert("evaluations".into(), json!(all.len()));
     c.insert("distinct_nontrivial".into(), json!(configs.len()));
-    c.insert("rule".into(), json!("one child process per hash seed (LD_PRELOAD getrandom shim; seeds 0,1,2,... until all 24 iteration orders of the 4-type schema S-det have been seen, at least 32 / at most the tier cap) plus two free-running processes; each child compiles the enumerated query space incl. invalid queries (IR or error text), executes cases with a recording adapter (rows in order + adapter call trace), compiles the repository's own test queries and constructs the C19 schema family (ok or error text), everything twice in-process; all section digests must be identical across processes. states = distinct hash-map iteration-order configurations observed, transitions = processes run"));
+    c.insert("rule".into(), json!("one child process per hash seed (LD_PRELOAD getrandom shim; seeds 0,1,2,... until every relative iteration order of S-det's vertex types has been seen (quick: the 6 orders of its three non-root types; thorough: all 24 orders of its four keys), at least 32 / at most the tier cap) plus two free-running processes; each child compiles the enumerated query space incl. invalid queries (IR or error text), executes cases with a recording adapter (rows in order + adapter call trace), compiles the repository's own test queries and constructs the C19 schema family (ok or error text), everything twice in-process; all section digests must be identical across processes. states = distinct hash-map iteration-order configurations observed, transitions = processes run"));
     c.insert("seeds_run".into(), json!(reports.len()));
-    c.insert("sdet_vertex_type_orders_seen_of_24".into(), json!(perms.len()));
+    c.insert("sdet_vertex_type_orders_seen".into(), json!({"seen": perms.len(), "of": wanted}));
     c.insert("vertex_type_order_pair_coverage".into(), json!(pair_cov));
     c.insert("sections".into(), reference["sections"].clone());
     c.insert("introspection_adapter_row_orders_observed (observation, not part of the verdict)".into(), json!(intro_orders.len()));
     c.insert("samples".into(), json!(samples.lock().unwrap().items));
-    c.insert("exhaustive".into(), json!(perms.len() == 24));
+    c.insert("exhaustive".into(), json!(perms.len() == wanted));
     ctx.finish(
         "model_checking",
         c,
